@@ -11,6 +11,9 @@ CHECKS = {
  "C02": ("translation_validation", "differential execution: optimised vs unoptimised compile of the same source",
    "Exhaustive grid of 4704 single-operator constant expressions (6 ops x Int/Float operand kinds x 14x14 boundary literals) plus 1.5k/40k random programs with nested constant trees in every expression position, each compiled with and without the optimiser by the real compiler and run on the same lines; per-line stores and error bits compared; optimiser-only rejections must have a constant-zero divisor per the harness's own evaluator.",
    "Both sides are the real compiler+VM; trusted: the harness's 40-line constant evaluator for the zero-divisor judgement.", "§4 C02"),
+ "C03": ("exploration", "outcome-predicate monitor in crash-isolating child processes + determinism check",
+   "11k (quick) / 250k (thorough) inputs <=64KiB — structured hostile families (nesting to depth 30000, regex lengths around the limit, unterminated tokens, invalid UTF-8/NUL, out-of-range literals), every prefix of every example, the repository's own test-table programs, generator output, byte/token/splice mutations, token soups, random bytes — each compiled twice in child processes that log the input before compiling; exactly-one-of(object, non-empty errors), no panic/process death, same object dump twice and in a second process; compiles over 20s/120s are re-run alone with a larger budget.",
+   "Time: only a reproducible overrun (600s alone for <=64KiB) is a violation; quadratic-but-finite compiles are reported in evidence, not as violations. Error-list order is not compared (not part of the statement).", "§4 C03"),
  "C08": ("exploration", "runtime reference-model monitor (injective-key map, datum identity)",
    "All tuples of arity 1-2 over components of length<=3 from {'-','\\\\','a'} are created in one real Metric and datum identity is checked to be a bijection (covers every ordered pair of that universe); every pair colliding under a naive encoding, plus 20k/400k random adversarial pairs of arity 1-4, go through a create/set/find/expire/emit/remove/re-create sequence against a reference map.",
    "Held on the tuples/pairs executed; trusted: Go maps, pointer equality, the harness's injective encoding.", "§4 C08"),
